@@ -132,8 +132,8 @@ func runTimeSource(c *Ctx, r *Reporter) {
 				counts[key]++
 				okHere := false
 				for _, a := range allow[key] {
-					if a.pkg == rel && a.enclosing == u.Enclosing {
-						okHere = true
+					if a.pkg == rel && (a.enclosing == u.Enclosing || (a.enclosing == "(*runCmd).Run" && strings.HasPrefix(u.Enclosing, "(*runCmd)."))) {
+						okHere = true // the run command, or a helper method it was split into
 					}
 				}
 				if rel == "" && !strings.Contains(u.Enclosing, "runCmd") && !strings.Contains(u.Enclosing, "fmtCmd") {
@@ -184,7 +184,7 @@ func runTimeSource(c *Ctx, r *Reporter) {
 	}
 	// who writes RandSource: only main.(*runCmd).Run
 	writers := sortedKeys(randSourceWriters)
-	r.Check(len(writers) == 1 && writers[0] == ".(*runCmd).Run", "RandSource#writers", "main.go", "RandSource is replaced only by the --rand-seed override in (*runCmd).Run", fmt.Sprintf("RandSource is assigned in %v; expected only main.(*runCmd).Run", writers))
+	r.Check(len(writers) == 1 && strings.HasPrefix(writers[0], ".(*runCmd)."), "RandSource#writers", "main.go", "RandSource is replaced only by the --rand-seed override in (*runCmd).Run", fmt.Sprintf("RandSource is assigned in %v; expected only main.(*runCmd).Run", writers))
 	readers := sortedKeys(randSourceReaders)
 	for _, rd := range readers {
 		r.Check(strings.HasPrefix(rd, "pkg/evaluator.rand"), "RandSource#reader:"+rd, "pkg/evaluator/builtin.go", "random numbers are drawn from RandSource by the rand built-ins only", "RandSource is read in "+rd)
@@ -209,7 +209,18 @@ func runTimeSource(c *Ctx, r *Reporter) {
 		}
 		return nil
 	}
-	ast.Inspect(run.Decl.Body, func(n ast.Node) bool {
+	// the override and the creation of the evaluator may live in a helper method of the run command: the method that
+	// holds the assignment is examined, and when the evaluator is created elsewhere, the call of that method must
+	// precede the creation
+	body := run.Decl.Body
+	var writerFn *FuncDecl
+	for _, fd := range Funcs(mainPkg) {
+		if len(writers) == 1 && "."+fd.Name() == writers[0] && fd.Name() != "(*runCmd).Run" {
+			writerFn = fd
+			body = fd.Decl.Body
+		}
+	}
+	ast.Inspect(body, func(n ast.Node) bool {
 		switch x := n.(type) {
 		case *ast.IfStmt:
 			// if c.<seed> != 0 { evaluator.RandSource = rand.New(rand.NewSource(c.<seed>)) }
@@ -248,6 +259,36 @@ func runTimeSource(c *Ctx, r *Reporter) {
 		}
 		return true
 	})
+	if writerFn != nil && !newEvalPos.IsValid() {
+		// NewEvaluator is called by another method: there the call of the overriding method comes first
+		for _, fd := range Funcs(mainPkg) {
+			if !strings.HasPrefix(fd.Name(), "(*runCmd).") || fd.Obj == writerFn.Obj {
+				continue
+			}
+			callPos := token.NoPos
+			ast.Inspect(fd.Decl.Body, func(n ast.Node) bool {
+				if call, ok := n.(*ast.CallExpr); ok {
+					if fn := calleeFunc(info, call); fn != nil {
+						if fn == writerFn.Obj && callPos == token.NoPos {
+							callPos = call.Pos()
+						}
+						if fn.Name() == "NewEvaluator" && objPkgPath(fn) == ModulePath+"/pkg/evaluator" && newEvalPos == token.NoPos {
+							newEvalPos = call.Pos()
+						}
+					}
+				}
+				return true
+			})
+			if newEvalPos.IsValid() {
+				if callPos.IsValid() && callPos < newEvalPos {
+					assignPos = callPos
+				} else {
+					assignPos = token.NoPos
+				}
+				break
+			}
+		}
+	}
 	r.Check(assignPos.IsValid() && newEvalPos.IsValid() && assignPos < newEvalPos && seedCondOK, "main.(*runCmd).Run#seed-before-evaluator", p.Rel(run.Decl.Pos()),
 		"the --rand-seed value replaces RandSource before the evaluator is created", "the --rand-seed override must assign rand.New(rand.NewSource(c.RandSeed)) to RandSource before NewEvaluator is called")
 	r.Note("suspicious-source reference counts: %v", counts)
